@@ -672,6 +672,25 @@ def check_C06(ctx):
                  expr="RpcCases", sig_keys=("fam", "cloner", "kind", "dir"))
 
 
+def check_C19(ctx):
+    os.environ["VERIF_PLUGIN"] = vlib.build_plugin(ctx.scratch)
+    n1, n2 = (4, 2) if ctx.quick else (5, 3)
+    ctx.exhaustive = True
+    regen = [{"fam": "regen", "proto": os.path.join(vlib.REPO, "grpchantesting", "test.proto"),
+              "golden": os.path.join(vlib.REPO, "grpchantesting", "test.pb.grpchan.go"), "param": "legacy_stubs",
+              "file": [], "legacynames": False, "style": "camel", "pkg": "flat"}]
+    l2_stateless(ctx, "StubGen", "stubgen",
+                 "StubGen!Cases(%d, %d): every file with one service of up to %d methods, or two services of up to %d methods "
+                 "each, over {unary, server-, client-, bidi-streaming} in every interleaving x legacy_desc_names x {CamelCase, "
+                 "snake_case} names x {flat, nested} package; the built plugin binary is run on a CodeGeneratorRequest made with "
+                 "protoparse, its output parsed with go/parser and the path literal, call shape, Streams[i] index and "
+                 "description symbol of every client method extracted; plus byte-exact regeneration of the checked-in stubs"
+                 % (n1, n2, n1, n2),
+                 expr="Cases(%d, %d)" % (n1, n2), extra_cases=regen, sig_keys=("fam", "legacynames", "style", "pkg"))
+    ctx.assumptions += ["go/parser accepting the output is what 'valid Go' means here (no type check against generated pb.go)",
+                        "descriptors come from protoparse instead of protoc"]
+
+
 def check_C11(ctx):
     ctx.exhaustive = True
     l2_stateless(ctx, "HttpGate", "gate",
@@ -687,5 +706,5 @@ def check_C11(ctx):
 CHECKS = {
     "C01": check_C01, "C02": check_C02, "C03": check_C03, "C04": check_C04, "C05": check_C05,
     "C08": check_C08, "C20": check_C20,
-    "C14": check_C14, "C11": check_C11, "C07": check_C07, "C09": check_C09, "C12": check_C12, "C15": check_C15, "C16": check_C16, "C17": check_C17, "C13": check_C13, "C10": check_C10, "C18": check_C18, "C06": check_C06,
+    "C14": check_C14, "C11": check_C11, "C07": check_C07, "C09": check_C09, "C12": check_C12, "C15": check_C15, "C16": check_C16, "C17": check_C17, "C13": check_C13, "C10": check_C10, "C18": check_C18, "C06": check_C06, "C19": check_C19,
 }
